@@ -241,6 +241,34 @@ theorem pinv_step {st : St} (h : PInv st) (ev : Ev) : PInv (step st ev) := by
       split
       · exact ⟨hi, fun e he hp => h.entries e (hsub e he hp) hp, h.queue, h.floorLe, fun hc => (hcl hc).elim⟩
       · exact ⟨hi, fun e he hp => h.entries e (hsub e he hp) hp, h.queue, h.floorLe, fun hc => (hcl hc).elim⟩
+  | startDone k c ttl now err =>
+    simp only [step]
+    split
+    · exact h
+    · rename_i hopen
+      have hi := Lru.inv_flight h.store k c ttl now
+      have hsub := Lru.flight_completed_sub st.store k c ttl now
+      have hcl : (Lru.flight st.store k c ttl now).1.closed = true → False := by
+        intro hc
+        have o := Lru.flight_cases st.store k c ttl now
+        cases o with
+        | closed hc' hs hr => exact hopen hc'
+        | found e hc' hf hv hr hl hsz hn fr => rw [fr.1, hc'] at hc; cases hc
+        | expired e hc' hf hv hr hl hsz hn fr => rw [fr.1, hc'] at hc; cases hc
+        | absent hc' hf hr hl hsz hn fr => rw [fr.1, hc'] at hc; cases hc
+      split
+      · refine ⟨Lru.inv_cancel hi k c err, ?_, h.queue, h.floorLe, ?_⟩
+        · intro e he hp
+          exact h.entries e (hsub e (Lru.cancel_sub _ k c err e he) hp) hp
+        · intro hc
+          have : (Lru.cancel (Lru.flight st.store k c ttl now).1 k c err).closed = (Lru.flight st.store k c ttl now).1.closed := by
+            unfold Lru.cancel; split
+            · rfl
+            · split
+              · rfl
+              · split <;> rfl
+          rw [this] at hc; exact (hcl hc).elim
+      · exact ⟨hi, fun e he hp => h.entries e (hsub e he hp) hp, h.queue, h.floorLe, fun hc => (hcl hc).elim⟩
   | exec vsz raw =>
     simp only [step]
     split
@@ -500,6 +528,7 @@ theorem QOk_suffix {f ver : Bytes → Nat} {tr : Bytes → Bool} (pre post : Lis
 theorem floor_mono_step (st : St) (ev : Ev) (k : Bytes) : st.floor k ≤ (step st ev).floor k := by
   cases ev with
   | start k' c ttl now => simp only [step]; split; exact Nat.le_refl _; split <;> exact Nat.le_refl _
+  | startDone k' c ttl now err => simp only [step]; split; exact Nat.le_refl _; split <;> exact Nat.le_refl _
   | exec vsz raw => simp only [step]; split <;> exact Nat.le_refl _
   | execFail err => simp only [step]; split <;> exact Nat.le_refl _
   | write k' => simp only [step]; split <;> exact Nat.le_refl _
